@@ -623,6 +623,29 @@ def r7(ctx, F):
                 for cb, ct in fl.calls_to('bincode::deserialize'):
                     if last_generic(callee_args(ct)) == ty.split('::')[-1]:
                         de = (body, cb)
+        if ser is not None and de is None:
+            # the read side may sit in a generic loader (`read_artifact::<T>` -> bincode::deserialize::<T>): which type it decodes
+            # is fixed at its call sites, not in its body - read from the call's generic arguments; else not decided
+            gen = None
+            for p_, xb in F.bodies.items():
+                if xb.crate != 'bin':
+                    continue
+                xfl = flow_of(xb)
+                for cb, ct in xfl.calls_to('bincode::deserialize'):
+                    if '/#' in callee_args(ct) or re.fullmatch(r'\[?[A-Z]\w?\]?', callee_args(ct).strip()):
+                        gen = p_.split('::{')[0]
+            if gen is not None:
+                inst = False
+                for fn in fns:
+                    for body in F.nested(fn):
+                        for cb, ct in flow_of(body).calls_to(gen):
+                            if last_generic(callee_args(ct)) == ty.split('::')[-1]:
+                                inst = True
+                if inst:
+                    ctx.ok('C01.R7', 'bincode:%s' % ty.split('::')[-1], 'written with bincode::serialize::<%s>, read through the generic loader %s::<%s>' % (ty, gen, ty.split('::')[-1]), None)
+                else:
+                    ctx.undecided('C01.R7', 'the CLI reads %s back through a generic loader (%s): which type each call site decodes is not decided' % (ty.split('::')[-1], gen))
+                continue
         ctx.check(ser is not None and de is not None, 'C01.R7', 'bincode:%s' % ty.split('::')[-1], 'written with bincode::serialize::<%s>, read with bincode::deserialize::<%s>' % (ty, ty),
                   'the CLI does not read back %s with the codec/type it was written with (serialize found: %s, deserialize found: %s)' % (ty, ser is not None, de is not None), None)
 
